@@ -527,3 +527,142 @@ def gen_database(rng, idx=0, shape=None):
     info = dict(nvars=len(target.vars()), nnot=nnot, nconst=nconst, nax=nax, nrule=nrule, use_app=db.use_app,
                 label_style=label_style, shuffled_f=(decl_order != list(names)))
     return db, target, last, info
+
+
+# ------------------------------------------------------------------------------------------------
+# reading .mm text of the modelled fragment back into a Database (for the shipped benchmarks / corpus)
+# ------------------------------------------------------------------------------------------------
+
+class OutOfModel(Exception):
+    pass
+
+
+def decode_letters(s):
+    nums, cur = [], 0
+    for ch in s:
+        if 'A' <= ch <= 'T':
+            nums.append(20 * cur + ord(ch) - ord('A') + 1)
+            cur = 0
+        elif 'U' <= ch <= 'Y':
+            cur = 5 * cur + ord(ch) - ord('U') + 1
+        elif ch == 'Z':
+            nums.append(0)
+        else:
+            raise OutOfModel('proof letter ' + ch)
+    return nums
+
+
+def parse_mm(src):
+    """-> (Database, {label: (plabels, nums)}).  Raises OutOfModel for anything the Coq model does not cover."""
+    import re
+    src = re.sub(r'\$\(.*?\$\)', ' ', src, flags=re.S)
+    tk = src.split()
+    db = Database()
+    proofs = {}
+    consts = []
+    i = 0
+    TC = ('#Pattern', '|-', '#Notation')
+
+    def until(end):
+        nonlocal i
+        out = []
+        while tk[i] != end:
+            out.append(tk[i])
+            i += 1
+        i += 1
+        return out
+
+    def term(ts, j):
+        t = ts[j]
+        if t == '(':
+            head = ts[j + 1]
+            j += 2
+            args = []
+            while ts[j] != ')':
+                a, j = term(ts, j)
+                args.append(a)
+            if not args:
+                raise OutOfModel('empty application')
+            return ('a', head, tuple(args)), j + 1
+        if t in db.vars:
+            return ('v', t), j + 1
+        return ('a', t, ()), j + 1
+
+    def terms(ts):
+        out, j = [], 0
+        while j < len(ts):
+            a, j = term(ts, j)
+            out.append(a)
+        return out
+
+    def statement(kw, label, ess):
+        nonlocal i
+        if kw == '$a':
+            st = until('$.')
+            proof = None
+        else:
+            st = until('$=')
+            proof = until('$.')
+        if st[0] not in TC:
+            raise OutOfModel('typecode ' + st[0])
+        a = Assertion(label, st[0], terms(st[1:]), ess)
+        if st[0] != '#Notation' and len(a.terms) != 1:
+            raise OutOfModel('statement with %d terms' % len(a.terms))
+        if kw == '$a':
+            db.items.append(('a', a))
+        else:
+            if not proof or proof[0] != '(':
+                raise OutOfModel('normal-format proof')
+            j = proof.index(')')
+            proofs[label] = (proof[1:j], decode_letters(''.join(proof[j + 1:])))
+            db.items.append(('p', a, None))
+
+    while i < len(tk):
+        t = tk[i]
+        i += 1
+        if t == '$c':
+            consts += until('$.')
+        elif t == '$v':
+            db.vars += until('$.')
+        elif t == '${':
+            ess = []
+            while True:
+                lab = tk[i]
+                kw = tk[i + 1]
+                i += 2
+                if kw == '$e':
+                    st = until('$.')
+                    if st[0] != '|-':
+                        raise OutOfModel('$e typecode ' + st[0])
+                    ts = terms(st[1:])
+                    if len(ts) != 1:
+                        raise OutOfModel('$e with %d terms' % len(ts))
+                    ess.append((lab, ts[0]))
+                elif kw in ('$a', '$p'):
+                    statement(kw, lab, ess)
+                    if tk[i] != '$}':
+                        raise OutOfModel('block continues after its assertion')
+                    i += 1
+                    break
+                else:
+                    raise OutOfModel('in block: ' + kw)
+        elif t in ('$d', '$}', '$['):
+            raise OutOfModel('statement ' + t)
+        else:
+            lab, kw = t, tk[i]
+            i += 1
+            if kw == '$f':
+                st = until('$.')
+                if st[0] != '#Pattern':
+                    raise OutOfModel('$f typecode ' + st[0])
+                db.items.append(('f', lab, st[1]))
+            elif kw in ('$a', '$p'):
+                statement(kw, lab, [])
+            else:
+                raise OutOfModel('statement ' + kw)
+    skip = set(TC) | {'(', ')', IMP, APP}
+    db.consts = [c for c in consts if c not in skip and not c.startswith('#')]
+    if any(c.startswith('"') for c in db.consts):
+        raise OutOfModel('quoted constant')
+    db.use_app = APP in consts
+    return db, proofs
